@@ -224,7 +224,17 @@ def finding_key(case, label, values, where):
     return None
 
 
+def h_pin_crash(ctx, n_ops):
+    """the identities table under symbolic contact ids and keys on the symbolic SQL engine (shared with C13): the process dies at any
+    statement/commit boundary while a contact's key is being (re)saved; after the restart the pin is the previous or the new key, never gone
+    (a missing pin would make ANY key trusted on first use), and a different key is not trusted"""
+    from checks import c13
+    obs = c13.h_sym(ctx, "identities", n_ops)
+    return [(l.replace("identities record", "pinned identity"), o) for l, o in obs if "identit" in l]
+
+
 def cases(tier):
+    extra = [dict(name="pin-crash[symbolic store,ops<=%d]" % (2 if tier == "quick" else 3), fn=h_pin_crash, args=(2 if tier == "quick" else 3,), max_paths=200000, timeout_s=900, weight=30, keep_samples=8)]
     n = 3 if tier == "quick" else 5
     cs = []
     # split by first event for parallelism
@@ -232,7 +242,7 @@ def cases(tier):
         cs.append(dict(name="history[first=%s,len<=%d]" % (first, n), fn=_with_first(first), args=(n,), max_paths=400000, timeout_s=900 if tier == "quick" else 3400, keep_samples=8, weight=100))
     cs.append(dict(name="step[getKeysFor]", fn=h_step_getkeys))
     cs.append(dict(name="step[handleEncMessage]", fn=h_step_receive))
-    return cs
+    return cs + extra
 
 
 def _with_first(first):
